@@ -168,6 +168,66 @@ Theorem C02_mask b s : mask_cell (Fin b) (Fin s) = true <-> (b < s)%Q.
 Proof. exact (mask_cell_fin b s). Qed.
 Print Assumptions C02_mask.
 
+(* ---- the masks as functions of the RESPONSE (Model/MinBaseMask.v) --------------------------
+   _Strand.min_base_size_mask and MinBaseSizeMask.{row,column,table}_mask: each cell is the
+   strict comparison of the UNWEIGHTED base of that cell (the bases the theorems above are
+   about, on the unweighted payload) with the threshold; equality is not masked; the weighted
+   measure of the response is irrelevant.  Checked on the implementation for thresholds just
+   below / at / just above every unweighted AND weighted base that occurs (c02.py leg (d)). *)
+From CC Require Import Model.MinBaseMask Proofs.MinBaseMaskProofs.
+
+Theorem C02_strand_mask ds p ca0 k st m i b s :
+  strand_counts ds (unweighted_counts_payload p) ca0 k = Some st ->
+  strand_mask ds p ca0 k (Fin s) = Some m ->
+  vnth (st_bases st) i = Fin b ->
+  (bnth m i = true <-> (b < s)%Q).
+Proof. exact (strand_mask_below_threshold ds p ca0 k st m i b s). Qed.
+Print Assumptions C02_strand_mask.
+
+Theorem C02_slice_masks ds p k so m i j s :
+  slice_counts ds (unweighted_counts_payload p) k = Some so ->
+  slice_mask ds p k (Fin s) = Some m ->
+  (forall b, mnth (so_row_bases so) i j = Fin b -> (bmnth (km_row m) i j = true <-> (b < s)%Q)) /\
+  (forall b, mnth (so_column_bases so) i j = Fin b -> (bmnth (km_column m) i j = true <-> (b < s)%Q)) /\
+  (forall b, mnth (so_table_bases so) i j = Fin b -> (bmnth (km_table m) i j = true <-> (b < s)%Q)).
+Proof. exact (slice_mask_below_threshold ds p k so m i j s). Qed.
+Print Assumptions C02_slice_masks.
+
+Theorem C02_mask_boundary b : mask_cell (Fin b) (Fin b) = false.
+Proof. exact (mask_cell_boundary b). Qed.
+Print Assumptions C02_mask_boundary.
+
+Theorem C02_mask_monotone b s s' :
+  (s <= s')%Q -> mask_cell (Fin b) (Fin s) = true -> mask_cell (Fin b) (Fin s') = true.
+Proof. exact (mask_cell_mono b s s'). Qed.
+Print Assumptions C02_mask_monotone.
+
+Theorem C02_strand_mask_ignores_weights ds p p' ca0 k size :
+  p_counts p = p_counts p' -> p_vcu p = p_vcu p' ->
+  strand_mask ds p ca0 k size = strand_mask ds p' ca0 k size.
+Proof. exact (strand_mask_ignores_weights ds p p' ca0 k size). Qed.
+Print Assumptions C02_strand_mask_ignores_weights.
+
+Theorem C02_slice_mask_ignores_weights ds p p' k size :
+  p_counts p = p_counts p' -> p_vcu p = p_vcu p' ->
+  slice_mask ds p k size = slice_mask ds p' k size.
+Proof. exact (slice_mask_ignores_weights ds p p' k size). Qed.
+Print Assumptions C02_slice_mask_ignores_weights.
+
+(* Non-vacuity: a weighted CAT strand, 5 respondents with a valid answer (unweighted base 5),
+   weighted base 1.  A threshold between the two (3) and the unweighted base itself (5) mask
+   nothing; 5 + 1/8 masks all. *)
+Example C02_strand_mask_example :
+  let ds := [mkDim DCat [false; false; true]] in
+  let p := mkPayload [Fin 3; Fin 2; Fin 1] (Some [Fin 1; Fin 0; Fin 0]) None None in
+  option_map st_bases (strand_counts ds (unweighted_counts_payload p) false 0) = Some [Fin 5; Fin 5] /\
+  option_map st_bases (strand_counts ds (weighted_counts_payload p) false 0)
+    = Some [Fin 1; Fin 1] /\
+  strand_mask ds p false 0 (Fin 3) = Some [false; false] /\
+  strand_mask ds p false 0 (Fin 5) = Some [false; false] /\
+  strand_mask ds p false 0 (Fin (41#8)) = Some [true; true].
+Proof. vm_compute. repeat split; reflexivity. Qed.
+
 (* Non-vacuity: MR x CAT with per-item missingness and a missing column category first in the
    payload.  Respondent 2 was not shown item 0; respondent 3 has a missing column answer. *)
 Example C02_example :
